@@ -51,6 +51,7 @@ type sess struct {
 }
 
 type world struct {
+	proto string // "" = HTTP/1.1, "2" = HTTP/2 (request matrix)
 	srv      *eio.Server
 	v        vsched.Var
 	accepted []*sess // in NewSocketCallback order
@@ -114,6 +115,10 @@ func (w *world) serveOn(rec *httptest.ResponseRecorder, method, rawQuery, body, 
 		rd = strings.NewReader(body)
 	}
 	req := httptest.NewRequest(method, "http://c17.test/engine.io/?"+rawQuery, rd)
+	if w.proto == "2" {
+		// what a TLS listener of net/http hands to the handler by default (only HTTP/3 is WebTransport's)
+		req.Proto, req.ProtoMajor, req.ProtoMinor = "HTTP/2.0", 2, 0
+	}
 	if ctype != "" {
 		req.Header.Set("Content-Type", ctype)
 	}
@@ -329,6 +334,7 @@ func stripThread(p string) string {
 
 type rq struct {
 	Method, EIO, Transport, SID, B64, J string // "" = parameter absent; SID is a kind: "", unknown, live, closed
+	Proto                               string `json:",omitempty"` // "" = HTTP/1.1, "2" = HTTP/2
 }
 
 func dash(s string) string {
@@ -339,7 +345,11 @@ func dash(s string) string {
 }
 
 func (q rq) String() string {
-	return fmt.Sprintf("%s EIO=%s transport=%s sid=%s b64=%s j=%s", q.Method, dash(q.EIO), dash(q.Transport), dash(q.SID), dash(q.B64), dash(q.J))
+	v := ""
+	if q.Proto != "" {
+		v = " over HTTP/" + q.Proto
+	}
+	return fmt.Sprintf("%s EIO=%s transport=%s sid=%s b64=%s j=%s%s", q.Method, dash(q.EIO), dash(q.Transport), dash(q.SID), dash(q.B64), dash(q.J), v)
 }
 
 var (
@@ -366,7 +376,11 @@ func matrixCases() []mcase {
 					for _, s := range mSIDs {
 						for _, b := range mB64 {
 							for _, j := range mJ {
-								out = append(out, mcase{st, rq{m, v, t, s, b, j}})
+								out = append(out, mcase{st, rq{Method: m, EIO: v, Transport: t, SID: s, B64: b, J: j}})
+								if b == "" && j == "" {
+									// the same request over HTTP/2 (seed c17i: checks skipped for every request above HTTP/1)
+									out = append(out, mcase{st, rq{Method: m, EIO: v, Transport: t, SID: s, Proto: "2"}})
+								}
 							}
 						}
 					}
@@ -504,7 +518,9 @@ func runMatrixCase(c mcase) (out caseOut) {
 				body, ctype = "d=4hello", "application/x-www-form-urlencoded"
 			}
 		}
+		w.proto = q.Proto
 		a := w.call(q.Method, query(q.EIO, q.Transport, sidVal, q.B64, q.J), body, ctype)
+		w.proto = ""
 
 		// ---- classify
 		faults := validate(state, q, sidLive)
@@ -1242,7 +1258,7 @@ func extra(tier string, r *vx.Report) {
 		}
 		r.Extra[part] = info
 	}
-	r.Sample(map[string]any{"part": "matrix", "state": "live", "request": rq{"POST", "5", "x", "unknown", "1", ""}.String(), "validator": "bad version + unknown sid + unknown transport => 400 with code among [0 1 3 5], no callback, store unchanged, live session still answers [queued, after]"})
+	r.Sample(map[string]any{"part": "matrix", "state": "live", "request": rq{Method: "POST", EIO: "5", Transport: "x", SID: "unknown", B64: "1"}.String(), "validator": "bad version + unknown sid + unknown transport => 400 with code among [0 1 3 5], no callback, store unchanged, live session still answers [queued, after]"})
 	r.Sample(map[string]any{"part": "ids", "answers": "SSD", "meaning": "2nd handshake generates the live id twice, then a fresh one: must be answered OPEN with a new sid"})
 
 	// observations of the concurrent forced collision (not verdicts; the verdict part runs as a scenario)
